@@ -166,6 +166,7 @@ def run(chk: Check) -> None:
     run_assumption_discipline(chk, ix)
     run_no_inplace_hash_mutation(chk, ix)
     run_whole_component_equality(chk, ix)
+    run_literal_contraction_by_values(chk, ix)
 
     # ---------------- R08.2
     r2 = chk.rule("R08.2", "for every Type subclass the attributes hashed by __hash__ are compared by __eq__ (equal values hash equal; the memo never misses or conflates because of an uncompared hashed field)", floor=15)
@@ -487,3 +488,25 @@ def run_whole_component_equality(chk: Check, ix) -> None:
                 r8.ok(key, f.loc())
             else:
                 r8.violation(key, f.loc(proj[0]), f"`{norm(proj[0])}` takes a sub-attribute of the component `{norm(proj[0].value)}`: what else the component carries (e.g. the type arguments of a tuple type's fallback Instance, which are not derived from the items for a generic tuple subclass `class Key(NamedTuple, Generic[T])`) no longer distinguishes two {c.name} values")
+
+
+def run_literal_contraction_by_values(chk: Check, ix) -> None:
+    """R08.9: literals are contracted to their sum type when all member *values* have been seen, not after so many literals."""
+    r = chk.rule("R08.9", "typeops.try_contracting_literals_in_union replaces `Literal[E.A] | Literal[E.B] | ...` by `E` (and `Literal[True, False]` by bool) when every member of the enum is present. One of its callers (the `recombine rhs literal types` step of subtypes._is_subtype) passes unions that may repeat an item, so the decision must depend on which values were seen: the test that triggers the contraction reads a collection that is updated with the literal's value (`literals.discard(typ.value)`), not a count of the literals encountered. Counting makes `bool <: Literal[True, True]` hold while `bool <: Literal[True]` does not (transitivity)", floor=1)
+    f = ix.func("mypy.typeops.try_contracting_literals_in_union")
+    trig = None
+    for i in ast.walk(f.node):
+        if isinstance(i, ast.If) and any(isinstance(a, ast.Assign) and isinstance(a.targets[0], ast.Subscript) and "fallback" in norm(a.value) for a in i.body):
+            trig = i
+    if trig is None:
+        raise AnalysisError("try_contracting_literals_in_union: the contraction step (`proper_types[first] = typ.fallback`) was not found")
+    names = {x.id for x in ast.walk(trig.test) if isinstance(x, ast.Name)}
+    value_fed = set()
+    for c in ast.walk(f.node):
+        if isinstance(c, ast.Call) and isinstance(c.func, ast.Attribute) and isinstance(c.func.value, ast.Name) and c.func.attr in ("discard", "remove", "add", "append", "pop") and any("value" in norm(a) for a in c.args):
+            value_fed.add(c.func.value.id)
+    key = "try_contracting_literals_in_union: the contraction is triggered by the member values seen"
+    if names & value_fed:
+        r.ok(key, f.loc(trig), f"`{norm(trig.test)}` reads {sorted(names & value_fed)}, which is updated with the literal's value")
+    else:
+        r.violation(key, f.loc(trig), f"`{norm(trig.test)}` reads {sorted(names)}, none of which is updated with `typ.value`: the decision counts literals instead of tracking which members were seen, so a repeated literal stands in for a missing member (`Literal[True, True]` contracts to bool)")
